@@ -954,6 +954,7 @@ package engine
 //@   ensures[size-is-what-was-consumed] err == nil && s.buf == old(s.buf) ==> gf(consumed, s.buf.Reader) == old(gf(consumed, s.buf.Reader)) + size
 //@   ensures[can-be-unread] err == nil ==> s.lastRuneSize == size && gf(lastRune, s.buf.Reader) == size && s.endOfStream != 2 && s.mode == 0 && s.streamType == 0 && s.buf.Reader != nil
 //@   ensures[rune-is-non-negative] r >= 0
+//@   ensures[wrong-type-is-refused] old(s.streamType) != 0 || old(s.mode) != 0 ==> err != nil && s.position == old(s.position)
 //@   ensures[size-range] 0 <= size && size <= 4 && (err == nil ==> 1 <= size) && (err != nil ==> size == 0)
 
 //@ func (*Stream).UnreadRune
@@ -962,12 +963,14 @@ package engine
 //@   modifies s.buf, s.endOfStream, s.position, s.lastRuneSize, class ghost_consumed, class ghost_lastRune, class ghost_lastByte
 //@   ensures[moves-back-by-the-rune] result == nil ==> s.position == wrap64(old(s.position) - old(s.lastRuneSize)) && s.endOfStream == 0
 //@   ensures[failure-keeps-the-cursor] result != nil ==> s.position == old(s.position)
+//@   ensures[wrong-type-is-refused] old(s.streamType) != 0 || old(s.mode) != 0 ==> result != nil && s.position == old(s.position)
 //@   ensures[succeeds-after-a-read] old(s.mode) == 0 && old(s.streamType) == 0 && old(s.buf.Reader) != nil && old(s.endOfStream) != 2 && old(gf(lastRune, s.buf.Reader)) >= 0 ==> result == nil
 
 //@ func (*Stream).ReadByte
 //@   property C19
 //@   requires s != nil
 //@   modifies s.buf, s.endOfStream, s.position, class ghost_consumed, class ghost_lastRune, class ghost_lastByte
+//@   ensures[wrong-type-is-refused] old(s.streamType) != 1 || old(s.mode) != 0 ==> result1 != nil && s.position == old(s.position)
 //@   ensures[position-advances-by-one] result1 == nil ==> s.position == wrap64(old(s.position) + 1)
 //@   ensures[failure-keeps-the-cursor] result1 != nil ==> s.position == old(s.position)
 //@   ensures[can-be-unread] result1 == nil ==> gf(lastByte, s.buf.Reader) == 1 && gf(consumed, s.buf.Reader) > 0 && s.endOfStream != 2 && s.mode == 0 && s.streamType == 1 && s.buf.Reader != nil
@@ -978,6 +981,7 @@ package engine
 //@   modifies s.buf, s.endOfStream, s.position, class ghost_consumed, class ghost_lastRune, class ghost_lastByte
 //@   ensures[moves-back-by-one] result == nil ==> s.position == wrap64(old(s.position) - 1) && s.endOfStream == 0
 //@   ensures[failure-keeps-the-cursor] result != nil ==> s.position == old(s.position)
+//@   ensures[wrong-type-is-refused] old(s.streamType) != 1 || old(s.mode) != 0 ==> result != nil && s.position == old(s.position)
 //@   ensures[succeeds-after-a-read] old(s.mode) == 0 && old(s.streamType) == 1 && old(s.buf.Reader) != nil && old(s.endOfStream) != 2 && old(gf(lastByte, s.buf.Reader)) == 1 && old(gf(consumed, s.buf.Reader)) > 0 ==> result == nil
 
 //@ func PeekChar
